@@ -31,7 +31,8 @@ def gen(lab, seed, tier, tag):
 
 
 def validate(prop, trace_module, verdict, events, path, label, cov, clause_filter=None, harness_clauses=HARNESS_CLAUSES, deque=True):
-    res = core.tlc_trace(trace_module, path, name=f'{prop}_{label}', deque=deque)
+    own = (lambda c: (clause_filter(c) if clause_filter else True) or c in harness_clauses)
+    res = core.tlc_trace(trace_module, path, name=f'{prop}_{label}', deque=deque, own=own)
     hb = [b for b in res['bad'] if set(b['clauses']) & harness_clauses]
     n_viol = core.judge_trace(verdict, res, events, prop_filter=clause_filter, label=label)
     if hb:
